@@ -1,8 +1,37 @@
-/- Driver ops for C19 (none yet). -/
+/- Driver ops for C19: pairwise distances of the transformed centers in the kernel's own norm, their
+lower/upper median and the adapted bandwidth (`Xrfmv.Median` at `Float`); plus the kernel ops of C05. -/
 import Xrfmv.Drv.Common
+import Xrfmv.Drv.C05
+import Xrfmv.Model.Median
+
+open Lean Xrfmv.Drv
 
 namespace Xrfmv.Drv.C19
+open Xrfmv.Kernel Xrfmv.Median
 
-def ops : List (String × Handler) := []
+/-- `{"op":"median_bandwidth", kind, q, p?, "L": base bandwidth, "eps": guard, transform, "x": centers,
+"dists": bool}` → lower/upper median of the off-diagonal distances, adapted bandwidth `base × median`
+(with the `< eps → 1` guard).  Rejected (`bad-op`): sum-power kernel (no adaptive mode: the code raises
+`ValueError`), fewer than two centers, a NaN distance. -/
+def opMedianBandwidth : Handler := fun j => do
+  let K ← C05.getSpec j
+  if K.isSumPower then throw "bad-op: adaptive bandwidth is not supported for SumPowerLaplaceKernel (ValueError)"
+  if !K.accepted then throw "bad-op: parameters rejected by the constructor (AssertionError)"
+  let xs := C05.rows (← getFss j "x")
+  let d := (xs.head?.map List.length).getD 0
+  if !C05.rect d xs then throw "bad-op: rows of x must have one common length"
+  let T ← C05.getTransform j d
+  let eps ← getF j "eps"
+  let ds := pairDists (dist K T) xs
+  if ds.any Float.isNaN then throw "bad-op: NaN distance"
+  match lowerMedian ds, upperMedian ds, adapt eps K.L ds with
+  | some lo, some hi, some bw =>
+    let wantDists := (j.getObjValAs? Bool "dists").toOption.getD false
+    pure <| Json.mkObj ([("lower", fJson lo), ("upper", fJson hi), ("bandwidth", fJson bw),
+      ("bandwidth_upper", fJson (K.L * (if hi < eps then 1 else hi))), ("count", toJson ds.length)] ++
+      (if wantDists then [("dists", fsJson ds.toArray)] else []))
+  | _, _, _ => throw "bad-op: fewer than two centers (median of an empty tensor)"
+
+def ops : List (String × Handler) := [("median_bandwidth", opMedianBandwidth)] ++ C05.ops
 
 end Xrfmv.Drv.C19
